@@ -7,8 +7,10 @@ replace github.com/oneconcern/datamon => /repo
 replace github.com/spf13/pflag => github.com/fredbi/pflag v1.0.6-0.20201106154427-e6824c13371a
 
 require (
+	github.com/jacobsa/fuse v0.0.0-20220531202254-21122235c77a
 	github.com/minio/blake2b-simd v0.0.0-20160723061019-3f5f724cb5b1
 	github.com/oneconcern/datamon v0.0.0
+	github.com/segmentio/ksuid v1.0.4
 	github.com/spf13/afero v1.9.3
 	go.uber.org/zap v1.24.0
 )
@@ -49,7 +51,6 @@ require (
 	github.com/prometheus/common v0.39.0 // indirect
 	github.com/prometheus/procfs v0.9.0 // indirect
 	github.com/rogpeppe/go-internal v1.9.0 // indirect
-	github.com/segmentio/ksuid v1.0.4 // indirect
 	go.opencensus.io v0.24.0 // indirect
 	go.uber.org/atomic v1.10.0 // indirect
 	go.uber.org/multierr v1.8.0 // indirect
